@@ -6,6 +6,7 @@ import (
 	"bytes"
 	"math/rand"
 	"sync"
+	"time"
 )
 
 // Ev is one observable event; keys follow the vocabulary of the TLA+ specifications.
@@ -19,6 +20,8 @@ type Recorder struct {
 	Stream []byte
 	Expect int // next stream position a handler is expected to read
 
+	T0 time.Time // when set, every event is stamped with "t" = milliseconds since T0
+
 	InHandler  bool // a recording handler is reading right now
 	MatcherErr bool // a scripted matcher returned its own error since the flag was cleared
 }
@@ -27,8 +30,33 @@ func NewRecorder(stream []byte) *Recorder { return &Recorder{Stream: stream} }
 
 func (r *Recorder) Add(e Ev) {
 	r.mu.Lock()
+	if !r.T0.IsZero() {
+		if _, has := e["t"]; !has {
+			e["t"] = int(time.Since(r.T0) / time.Millisecond)
+		}
+	}
 	r.Hist = append(r.Hist, e)
 	r.mu.Unlock()
+}
+
+// Snapshot returns a copy of the history.
+func (r *Recorder) Snapshot() []Ev {
+	r.mu.Lock()
+	defer r.mu.Unlock()
+	return append([]Ev{}, r.Hist...)
+}
+
+// recorders of connections the harness cannot reach before the code under test wraps them
+// (Server.handle, servePacket, the listener wrapper), keyed by the client's address
+var recByAddr sync.Map
+
+func RegisterRec(addr string, r *Recorder) { recByAddr.Store(addr, r) }
+func UnregisterRec(addr string)            { recByAddr.Delete(addr) }
+func RecByAddr(addr string) *Recorder {
+	if v, ok := recByAddr.Load(addr); ok {
+		return v.(*Recorder)
+	}
+	return nil
 }
 
 func (r *Recorder) AddAux(e Ev) {
